@@ -184,7 +184,7 @@ func gkrPoseidonCase(inst int) *gcase {
 		// when a faulted hint changed a claimed output, what is committed must change with it
 		PostCheck: func(honest, faulted []hintCall, planned map[int]bool) string {
 			changed := false
-			for idx := range planned {
+			for _, idx := range sortedKeys(planned) {
 				if idx < len(honest) && idx < len(faulted) && strings.HasSuffix(faulted[idx].Name, "permuteHint") && len(faulted[idx].Out) == 1 && faulted[idx].Out[0] != nil && honest[idx].Out[0].Cmp(faulted[idx].Out[0]) != 0 {
 					changed = true
 				}
